@@ -3,7 +3,7 @@
 
 use crate::program::*;
 use crate::rng::Rng;
-use crate::sched::{Faults, RunSetup, Strategy, MAXT, NEV, SITE_EV0, SITE_LOCK, SITE_OPEND, SITE_OPSTART};
+use crate::sched::{Faults, RunSetup, Seg, Strategy, MAXT, NEV, SITE_EV0, SITE_LOCK, SITE_OPEND, SITE_OPSTART};
 use crate::types::HashKind;
 
 #[derive(Clone, Debug)]
@@ -366,6 +366,72 @@ fn pick_weighted(rng: &mut Rng, w: &[u32]) -> usize {
     0
 }
 
+/// A scripted race that random programs essentially never compose: a list bin of 8 colliding
+/// keys in a 64-bin table; one thread inserts the 9th (and will treeify after releasing the
+/// lock), another removes the original 8, a third removes the 9th, a fourth reads / iterates.
+/// Depending on the schedule the bin is treeified while holding 1..9 nodes, shrinks to a
+/// one-node tree, and is emptied under a reader's feet.
+pub fn gen_shrinking_tree_race(rng: &mut Rng, with_iter: bool) -> Program {
+    let hash = *rng.pick(&[HashKind::Const, HashKind::SameBin, HashKind::Mod(1)]);
+    let n0 = 8u32;
+    let mut vid = 1u32;
+    let mut nv = || {
+        vid += 1;
+        vid
+    };
+    let mut removes: Vec<u32> = (0..n0).collect();
+    rng.shuffle(&mut removes);
+    let keep = rng.below(3) as usize; // leave 0..2 of the original keys
+    removes.truncate(n0 as usize - keep);
+    let t0 = vec![Op::Insert(n0, nv())];
+    let t1: Vec<Op> = removes.iter().map(|&k| if rng.chance(1, 4) { Op::Compute(k, CFn::Remove, 0) } else { Op::Remove(k) }).collect();
+    let mut t2 = vec![];
+    if rng.chance(1, 2) {
+        t2.push(Op::Get(n0));
+    }
+    t2.push(if rng.chance(1, 3) { Op::Compute(n0, CFn::Remove, 0) } else { Op::Remove(n0) });
+    if rng.chance(1, 2) {
+        t2.push(Op::Insert(n0 + 1, nv()));
+    }
+    let mut t3 = vec![];
+    let reads = rng.range(1, 4);
+    for _ in 0..reads {
+        t3.push(if with_iter {
+            match rng.below(4) {
+                0 => Op::IterAll(IterKind::Iter),
+                1 => Op::IterAll(IterKind::Keys),
+                2 => Op::Get(n0),
+                _ => Op::IterAll(IterKind::Values),
+            }
+        } else {
+            match rng.below(3) {
+                0 => Op::Get(n0),
+                1 => Op::GetKV(*rng.pick(&removes)),
+                _ => Op::Contains(n0),
+            }
+        });
+    }
+    let mut threads = vec![t0, t1, t2, t3];
+    if rng.chance(1, 3) {
+        threads.push(vec![Op::Retain(Pred::DropKeys(n0, 0)), Op::Clear]);
+    }
+    let facade = threads.iter().map(|_| if rng.chance(1, 3) { Facade::Pinned } else { Facade::Guarded }).collect();
+    Program {
+        cfg: Config {
+            hash,
+            capacity: 42,
+            batch: *rng.pick(&[1u32, 2, 120]),
+            set: false,
+            ncpu: None,
+            min_stride: None,
+            prepop: (0..n0).collect(),
+            preremove: vec![],
+            facade,
+        },
+        threads,
+    }
+}
+
 pub fn gen_program(rng: &mut Rng, gc: &GenCfg) -> Program {
     let shape = *rng.pick(&gc.shapes);
     let so = make_shape(rng, shape, &gc.hashes);
@@ -547,6 +613,67 @@ pub fn gen_program(rng: &mut Rng, gc: &GenCfg) -> Program {
     }
 }
 
+/// Kinds of sites at which a scripted segment may end: lock released, pointer store / CAS / swap,
+/// control-word CAS, lock-state CAS, operation boundaries, a few site events.
+pub fn script_sites() -> Vec<u8> {
+    use flurry::verif::Ev;
+    vec![
+        SITE_EV0 + Ev::LockReleased as u8,
+        SITE_EV0 + Ev::LockReleased as u8,
+        1,  // ptr store
+        1,
+        2,  // ptr swap
+        3,  // ptr cas
+        0,  // ptr load
+        8 + 3,  // ctl cas
+        8 + 1,  // ctl store
+        16 + 3, // lock-state cas
+        SITE_OPEND,
+        SITE_LOCK,
+        SITE_EV0 + Ev::BinMigrated as u8,
+        SITE_EV0 + Ev::Treeified as u8,
+        SITE_EV0 + Ev::ResizeStarted as u8,
+    ]
+}
+
+pub fn random_script(rng: &mut Rng, nthreads: usize) -> Strategy {
+    let sites = script_sites();
+    let nseg = rng.range(2, 9);
+    let mut segs = Vec::new();
+    for _ in 0..nseg {
+        let thread = rng.usize(nthreads.max(1)) as u8;
+        let site = if rng.chance(1, 4) { None } else { Some(*rng.pick(&sites)) };
+        segs.push(Seg { thread, site, nth: rng.range(1, 5) as u32 });
+    }
+    Strategy::Script { segs, cur: 0, hits: 0 }
+}
+
+/// Script for `gen_shrinking_tree_race`: inserter up to its n-th lock release, remover to the
+/// end, inserter to the end (it treeifies what is left), last remover up to its n-th pointer
+/// store, then the reader - with jitter on every parameter so that the neighbourhood of that
+/// schedule is explored, not one point.
+pub fn shrinking_tree_script(rng: &mut Rng, nthreads: usize) -> Strategy {
+    use flurry::verif::Ev;
+    let rel = SITE_EV0 + Ev::LockReleased as u8;
+    let mut segs = vec![
+        Seg { thread: 0, site: Some(rel), nth: rng.range(1, 2) as u32 },
+        Seg { thread: 1, site: None, nth: 1 },
+        Seg { thread: 0, site: None, nth: 1 },
+        Seg { thread: 2, site: Some(*rng.pick(&[1u8, 1, 1, 0, 3, rel])), nth: rng.range(1, 6) as u32 },
+        Seg { thread: 3, site: None, nth: 1 },
+    ];
+    if rng.chance(1, 3) {
+        // perturb: swap two neighbouring segments or insert a random one
+        let i = rng.usize(segs.len() - 1);
+        segs.swap(i, i + 1);
+    }
+    if nthreads > 4 && rng.chance(1, 2) {
+        let at = rng.usize(segs.len());
+        segs.insert(at, Seg { thread: 4, site: Some(rel), nth: rng.range(1, 4) as u32 });
+    }
+    Strategy::Script { segs, cur: 0, hits: 0 }
+}
+
 /// Draws the scheduling strategy and fault plan of one run.
 pub fn gen_setup(rng: &mut Rng, seed: u64, p: &Program, stall_pct: u32, spurious: bool) -> RunSetup {
     let mut s = RunSetup::new(seed);
@@ -554,7 +681,7 @@ pub fn gen_setup(rng: &mut Rng, seed: u64, p: &Program, stall_pct: u32, spurious
     let est = 40 * ops + 200;
     s.strat = match rng.below(10) {
         0..=3 => Strategy::Random {
-            p: *rng.pick(&[20u64, 50, 100, 200, 350, 512]),
+            p: *rng.pick(&[3u64, 8, 20, 50, 100, 200, 350, 512]),
         },
         4..=6 => {
             let d = rng.range(1, 5);
@@ -585,10 +712,11 @@ pub fn gen_setup(rng: &mut Rng, seed: u64, p: &Program, stall_pct: u32, spurious
                 p_cold: *rng.pick(&[0u64, 10, 40]),
             }
         }
-        _ => Strategy::RoundRobin {
+        9 if rng.chance(1, 2) => Strategy::RoundRobin {
             quantum: rng.range(1, 12),
             left: 0,
         },
+        _ => random_script(rng, p.threads.len()),
     };
     let mut f = Faults::default();
     if rng.below(100) < stall_pct as u64 {
